@@ -111,6 +111,7 @@ func init() {
 			c.check(bad == "", "nil-state-contract", qname(fn), p.Pos(fnPos(fn)), "never returns a nil state together with a context error", "Migrate "+bad+": the runner treats a nil state with a context error as a completed migration and sets its applied bit")
 		}
 		c.floor("nil-state-contract", 9)
+		c18ClearAfterDone(c)
 		// validation-first
 		if f := p.Func("migration", "", "NewRunner"); f != nil {
 			k := 0
@@ -354,4 +355,59 @@ func exprName(e ast.Expr) string {
 		return types.ExprString(x.Fun)
 	}
 	return types.ExprString(e)
+}
+
+// wholeBucketClear: fn (or a same-package callee, depth ≤ 2) deletes a whole source bucket directly on the store
+// (DeletePrefix on a typed bucket's prefix, or DeleteRange on a db.KeyValueStore / KeyValueRangeDeleter that is not a batch).
+func wholeBucketClear(fn *ssa.Function, depth int) bool {
+	if fn == nil || len(fn.Blocks) == 0 || depth > 2 {
+		return false
+	}
+	for _, s := range sitesOf(fn) {
+		cn := s.CalleeName()
+		if strings.HasSuffix(cn, ".DeletePrefix") || strings.HasSuffix(cn, ").DeletePrefix") {
+			return true
+		}
+		if s.Method != nil && s.Method.Name() == "DeleteRange" && strings.HasSuffix(typeShort(s.Recv.Type()), "KeyValueStore") {
+			return true
+		}
+		if s.Callee != nil && s.Callee.Pkg == fn.Pkg && s.Callee != fn && wholeBucketClear(s.Callee, depth+1) {
+			return true
+		}
+	}
+	return false
+}
+
+// c18ClearAfterDone: a Migrate implementation wipes the buckets it converts only on a path that established that nothing is
+// left to migrate and no error occurred. (An early wipe loses every entry not yet converted when the run is interrupted.)
+func c18ClearAfterDone(c *Ctx) {
+	p := c.P
+	n := 0
+	for _, fn := range p.sortedFuncs() {
+		pr := pkgRelOf(fn)
+		if !strings.HasPrefix(pr, "migration/") || strings.HasPrefix(pr, "migration/deprecated") || fn.Origin() != nil || strings.HasSuffix(p.Pos(fnPos(fn)), "_test.go") {
+			continue
+		}
+		if fn.Name() != "Migrate" && !strings.HasPrefix(fn.Name(), "zzVerifFixtureC18Clear") {
+			continue
+		}
+		for _, g := range withAnons(fn) {
+			for _, s := range sitesOf(g) {
+				if s.Callee == nil || s.Callee.Pkg != fn.Pkg || !wholeBucketClear(s.Callee, 0) {
+					continue
+				}
+				// the pipeline stages themselves (range deletes of converted blocks inside a batch) are not whole-bucket clears
+				n++
+				d := p.mustHoldAt(s.Instr)
+				okDone, m1 := everyDisjunctHas(d, []string{"$.IsDone"}, []string{"^!", "getFirstBlockToMigrate(", "#1"})
+				okErr, m2 := everyDisjunctHas(d, []string{"^!", "errors.Join(", "!= nil"}, []string{"^!", "#2 != nil"}, []string{"^!", ".Err != nil"})
+				c.check(okDone && okErr, "clear-after-done", qname(fn)+" → "+s.Callee.Name(), p.Pos(s.Pos()), "source buckets are wiped only after the pipeline reported completion (or nothing is left to migrate) without error",
+					"the deprecated source buckets are wiped on a path that did not establish that every entry was converted: an interrupted or failed run loses the entries not yet migrated: "+m1+" "+m2)
+			}
+		}
+	}
+	if n < 2 {
+		c.und("clear-after-done", "migration wipes", "", fmt.Sprintf("only %d whole-bucket clears found in Migrate implementations", n))
+	}
+	c.needFixture("clear-after-done")
 }
